@@ -2,11 +2,14 @@ import Lean.Data.Json
 import SpoxModel.Model.MLInfer
 import SpoxModel.Model.RtShape
 import SpoxModel.Model.ScanRun
+import SpoxModel.Model.IfInfer
 /-! Line-protocol handler for property C06 (model side of the correspondence).
 
   {"k":"infer","op":O,"a":_,"b":_,"c":_,"in":[type…]}            → {"ok":[type|null…]} | {"err":E}
   {"k":"loop","A":[…],"R":[…],"S":[…],"pinned":bool}             → same
   {"k":"rt","op":O,"a":_,"b":_,"c":_,"kk":k,"vals":[value…]}     → {"rt":[value…]|null}
+  {"k":"if","T":[type…],"E":[type…]}                             → {"ok":[type…]} | {"err":E}   (round 10)
+  {"k":"ifrun","c":bool,"vt":[value…],"ve":[value…]}             → {"run":[value…]}
   {"k":"conf","val":value,"ty":type}                              → {"conf":bool}
   {"k":"strip","ty":type,"all":bool}                              → {"ty":type}
 -/
@@ -198,6 +201,14 @@ def handle (req : Json) : Json :=
       pure (Json.mkObj [("outcome", match nonTensorOutcome op with
         | some .typeErr => "TypeError" | some .inferenceErr => "InferenceError"
         | some .passThrough => "passThrough" | none => "?")])
+    | "if" => do
+      let T ← tys req "T"; let E ← tys req "E"
+      pure (resToJson (inferIf T E))
+    | "ifrun" => do
+      let c ← req.getObjValAs? Bool "c"
+      let vt ← (← req.getObjValAs? (Array Json) "vt").toList.mapM valOfJson
+      let ve ← (← req.getObjValAs? (Array Json) "ve").toList.mapM valOfJson
+      pure (Json.mkObj [("run", Json.arr ((ifRun c vt ve).map valToJson).toArray)])
     | "loop" => do
       let A ← tys req "A"; let R ← tys req "R"; let S ← tys req "S"
       let pinned := (req.getObjValAs? Bool "pinned").toOption.getD false
